@@ -18,7 +18,15 @@ Routes
     align (and scale); radian / degree errors and geodesic_loss against 2 atan2(|v|, |w|);
     geodesic_loss over batch shapes (unbatched, multi-dimensional, broadcasting, empty), mixed types,
     memory layouts and call forms (geo_shape_laws); chspline / bspline per batch item, per memory
-    layout, repeatable, non-mutating (chs_batch_laws, bs_laws 'batch')."""
+    layout, repeatable, non-mutating (chs_batch_laws, bs_laws 'batch');
+    autograd states (block E): geodesic_loss, ape / rpe, chspline / bspline with arguments that are leaves
+    requiring grad, Parameters, non-leaves, under no_grad / enable_grad / inference_mode - the values equal those
+    for plain tensors, and geodesic_loss is judged relatively (1e-9) + 1e-12 against the angle oracle for
+    relative angles 0, 1e-9 .. 1e-2, generic, pi - 1e-6, pi (geo_grad_laws);
+    boundary pose errors (block E): ape / rpe of estimates ref_i (dt_i, d_i) with d_i exact half turns about the
+    coordinate axes / generic axes (constant, alternating with the identity, random axes), the identity, angles
+    next to pi, tiny angles, mixtures - every error type and pairing option: order chain with non-finite
+    statistics counted as a violation, radian / degree against the angle oracle, rpe left-invariance."""
 import math
 from ..common import *
 from ..lie import *
@@ -153,6 +161,56 @@ def chs_key(why):
 
 def chs_case_dict(pts, a, b, line):
     return dict(kind='chspline', points=pts.tolist(), a=a, b=b, line=line)
+
+
+# ------------------------------------------------------------------------------------- autograd states
+# (state of the first argument, state of the second argument, grad mode around the call): the VALUES of every
+# function of the property must not depend on them
+GRAD_MODES = [('leaf', 'plain', 'default'), ('plain', 'leaf', 'default'), ('leaf', 'leaf', 'default'),
+              ('param', 'plain', 'default'), ('plain', 'param', 'default'), ('nonleaf', 'nonleaf', 'default'),
+              ('plain', 'plain', 'no_grad'), ('leaf', 'param', 'no_grad'), ('leaf', 'leaf', 'enable_grad inside no_grad'),
+              ('param', 'leaf', 'inference_mode')]
+GRAD_WORDS = dict(plain='not requiring grad', leaf='a leaf with requires_grad=True', param='a Parameter',
+                  nonleaf='a non-leaf (clone of a leaf) requiring grad')
+
+
+def grad_prep(pp, torch, t, mode):
+    """a copy of the (Lie)tensor t with the same values in the requested autograd state"""
+    if mode == 'plain':
+        return t.clone()
+    if mode == 'param':
+        return pp.Parameter(t.clone()) if isinstance(t, pp.LieTensor) else torch.nn.Parameter(t.clone())
+    leaf = t.clone().requires_grad_(True)
+    return leaf.clone() if mode == 'nonleaf' else leaf
+
+
+def grad_ctx(torch, name):
+    import contextlib
+    if name == 'no_grad':
+        return torch.no_grad()
+    if name == 'inference_mode':
+        return torch.inference_mode()
+    if name == 'enable_grad inside no_grad':
+        st = contextlib.ExitStack()
+        st.enter_context(torch.no_grad())
+        st.enter_context(torch.enable_grad())
+        return st
+    return contextlib.nullcontext()
+
+
+def grad_desc(g):
+    return 'first argument %s, second argument %s, grad mode %s' % (GRAD_WORDS[g[0]], GRAD_WORDS[g[1]], g[2])
+
+
+def flat_vals(pp, o):
+    if isinstance(o, pp.LieTensor):
+        o = o.tensor()
+    return o.detach().reshape(-1).tolist()
+
+
+def same_vals(a, b):
+    """values of the same computation in two autograd states: equal up to a few ulp"""
+    return len(a) == len(b) and all((u != u and v != v) or abs(u - v) <= 1e-12 * max(abs(u), abs(v)) + 1e-17 for u, v in zip(a, b))
 
 
 # ------------------------------------------------------------------------------------- poses
@@ -355,8 +413,9 @@ def perturb(rng, poses, sigma_t=0.05, sigma_r=0.05):
     return out
 
 
-def call_metric(pp, torch, c):
-    """c: dict with rpe, rstamp, rpose, estamp, epose and the options.  Returns (stats dict | None, svd, error)"""
+def call_metric(pp, torch, c, gmode=None):
+    """c: dict with rpe, rstamp, rpose, estamp, epose and the options.  Returns (stats dict | None, svd, error).
+    gmode = (state of the reference poses, state of the estimated poses, grad mode), see GRAD_MODES"""
     import pypose.metric.ape_rpe as M
     rec = {}
     orig = M.svdstf
@@ -370,12 +429,15 @@ def call_metric(pp, torch, c):
         rs = None if c['rstamp'] is None else torch.tensor(c['rstamp'], dtype=torch.float64)
         es = None if c['estamp'] is None else torch.tensor(c['estamp'], dtype=torch.float64)
         rp, ep = SE3t(pp, torch, c['rpose']), SE3t(pp, torch, c['epose'])
+        if gmode is not None:
+            rp, ep = grad_prep(pp, torch, rp, gmode[0]), grad_prep(pp, torch, ep, gmode[1])
         kw = dict(etype=c['etype'], diff=c['diff'], offset=c['offset'], align=c['align'], scale=c['scale'], origin=c['origin'])
-        if c['rpe']:
-            kw.update(associate=c['associate'], delta=c['delta'], rtol=c['rtol'], all=c['all'], rpair=c['rpair'])
-            res = pp.metric.rpe(rs, rp, es, ep, **kw)
-        else:
-            res = pp.metric.ape(rs, rp, es, ep, **kw)
+        with grad_ctx(torch, gmode[2] if gmode is not None else 'default'):
+            if c['rpe']:
+                kw.update(associate=c['associate'], delta=c['delta'], rtol=c['rtol'], all=c['all'], rpair=c['rpair'])
+                res = pp.metric.rpe(rs, rp, es, ep, **kw)
+            else:
+                res = pp.metric.ape(rs, rp, es, ep, **kw)
         return {k: float(v) for k, v in res.items()}, rec.get('svd'), None
     except Exception as e:
         return None, rec.get('svd'), repr(e)[:200]
@@ -458,6 +520,9 @@ def metric_laws(pp, torch, c, which, extra=None):
         if res is None:
             return None
         t = 1e-12
+        nan = [k for k in STAT_KEYS if not math.isfinite(res[k]) and not (k == 'STD' and res['Max'] == res['Min'])]
+        if nan:
+            return '%s statistics are not finite (%s), so Max >= RMSE >= Mean >= Min >= 0 does not hold: %s' % (name, ', '.join(nan), res)
         if not (res['Max'] >= res['RMSE'] * (1 - t) - 1e-300 and res['RMSE'] >= res['Mean'] * (1 - t) - 1e-300
                 and res['Mean'] >= res['Min'] * (1 - t) - 1e-300 and res['Min'] >= 0):
             return '%s statistics are not ordered Max >= RMSE >= Mean >= Min >= 0: %s' % (name, res)
@@ -494,6 +559,19 @@ def metric_laws(pp, torch, c, which, extra=None):
             return 'ape(align=%s, scale=%s) changes when a %s transform is applied to the estimate: %s' % (
                 c['align'], c['scale'], 'similarity' if which == 'align-sim' else 'rigid', d)
         return None
+    if which == 'grad-state':
+        # the statistics do not depend on the autograd state of the poses / the grad mode
+        for g in GRAD_MODES:
+            res2, _, err2 = call_metric(pp, torch, c, gmode=g)
+            if (res is None) != (res2 is None):
+                return '%s raises in one autograd state only (%s): %s / %s' % (name, grad_desc(g), err, err2)
+            if res is None:
+                continue
+            bad = [k for k in STAT_KEYS if not same_vals([res[k]], [res2[k]])]
+            if bad:
+                return ('%s etype=%s depends on the autograd state of its pose arguments (%s; first = reference, second = estimate): '
+                        '%s = %r, without requires_grad %r' % (name, c['etype'], grad_desc(g), bad[0], res2[bad[0]], res[bad[0]]))
+        return None
     if which == 'angle-oracle':
         # ape on index-aligned trajectories, etype radian / degree: per-pose angle of q_e^-1 q_r
         if res is None:
@@ -510,7 +588,14 @@ def metric_laws(pp, torch, c, which, extra=None):
                 errs.append(f * q_angle(rr, er))
         else:
             errs = [f * q_angle(e[3:], r[3:]) for r, e in zip(c['rpose'], c['epose'])]
-        d = close_stats(res, stats_of(errs), 1e-7)
+        exp = stats_of(errs)
+        d = close_stats(res, exp, 1e-7)
+        if not d and extra and extra.get('abs_tol') is not None:
+            # small angles: 1e-7 (1 + ...) says nothing; the caller knows that no relative rotation is near pi
+            for k in ('Max', 'Min', 'Mean', 'Median', 'RMSE'):
+                if not abs(res[k] - exp[k]) <= f * extra['abs_tol'] + 1e-9 * exp[k]:
+                    d = '%s: %r vs %r' % (k, res[k], exp[k])
+                    break
         if d:
             return '%s etype=%s differs from the rotation angle of the relative rotation: %s' % (name, c['etype'], d)
         return None
@@ -770,11 +855,193 @@ def gen_geo_shape(rng, torch, gi):
 
 
 def geo_key(why):
-    for word, key in (('raised', 'raises'), ('modified', 'mutation'), ('returned shape', 'shape'), ('outside', 'range'),
+    for word, key in (('autograd state', 'autograd-state'), ('raised', 'raises'), ('modified', 'mutation'), ('returned shape', 'shape'), ('outside', 'range'),
                       ('symmetric', 'symmetry'), ('differs from', 'call-form')):
         if word in why:
             return 'geodesic:' + key
     return 'geodesic:angle'
+
+
+def q_log(q):
+    """rotation vector of a unit quaternion (generator side only; the oracle goes through rot_quat again)"""
+    q = [-v for v in q] if q[3] < 0 else list(q)
+    nv = math.sqrt(q[0] ** 2 + q[1] ** 2 + q[2] ** 2)
+    if nv == 0.0:
+        return [0.0, 0.0, 0.0]
+    th = 2 * math.atan2(nv, q[3])
+    return [th * q[0] / nv, th * q[1] / nv, th * q[2] / nv]
+
+
+GEO_GRAD_ANGLES = [0.0, 1e-9, 1e-7, 1e-6, 1e-5, 1e-4, 1e-3, 1e-2, None, math.pi - 1e-6, math.pi, 'neg']
+
+
+def gen_geo_grad(rng, torch, gi):
+    """a flat batch of pairs whose relative rotation angle runs through zero (equal, sign-flipped), tiny ... small,
+    generic, nearly pi and pi; every LieTensor type for the input, target of the same or another type"""
+    lx = ALGS8[gi % 8]
+    ly = lx if gi < 8 else ALGS8[(gi * 3 + 1) % 8]
+    angs = list(GEO_GRAD_ANGLES)
+    if gi >= 16:
+        angs = [rng.choice(GEO_GRAD_ANGLES + [10.0 ** rng.uniform(-10, -2)]) for _ in range(rng.randint(1, 6))]
+    xs, ys = [], []
+    for a in angs:
+        if lx[0].isupper():
+            x = generic_elt(rng, lx, torch, torch.float64)
+        else:
+            x = [rng.uniform(-1.5, 1.5) for _ in range(elt_dim(lx))]
+        qx = rot_quat(lx, x)
+        if a == 'neg':
+            qt = [-v for v in qx]
+        else:
+            dq = small_q(rng, rng.uniform(0.05, 3.0) if a is None else a) if a != 0.0 else [0.0, 0.0, 0.0, 1.0]
+            qt = q_mul(qx, dq) if rng.random() < 0.5 else q_mul(dq, qx)
+            nq = math.sqrt(sum(v * v for v in qt))
+            qt = [v / nq for v in qt] if a != 0.0 else list(qx)
+        if ly[0].isupper():
+            y = generic_elt(rng, ly, torch, torch.float64)
+            o = 3 if ly in ('SE3', 'Sim3') else 0
+            y[o:o + 4] = qt
+        else:
+            y = [rng.uniform(-1.5, 1.5) for _ in range(elt_dim(ly))]
+            o = 3 if ly in ('se3', 'sim3') else 0
+            y[o:o + 3] = q_log(qt)
+        xs.append(x)
+        ys.append(y)
+    return dict(kind='geodesic-grad', lx=lx, ly=ly, xs=xs, ys=ys)
+
+
+def geo_grad_laws(pp, torch, c):
+    """geodesic_loss is the rotation angle whatever the autograd state of its arguments (leaf requiring grad,
+    Parameter, non-leaf, no_grad / enable_grad / inference_mode around the call): every reduction, function and
+    module, both argument orders.  Oracle: 2 atan2(|v|, |w|) of the relative quaternion in plain python, judged
+    RELATIVELY (1e-9) plus 1e-12 absolute, so that angles of 1e-9 .. 1e-3 and exact zeros are decided; the value
+    in every state is also compared with the value for plain tensors (equal up to 1e-12 relative)."""
+    lx, ly = c['lx'], c['ly']
+    try:
+        X0 = pp.LieTensor(torch.tensor(c['xs'], dtype=torch.float64), ltype=getattr(pp, lx + '_type'))
+        Y0 = pp.LieTensor(torch.tensor(c['ys'], dtype=torch.float64), ltype=getattr(pp, ly + '_type'))
+        ref = [q_angle(rot_quat(ly, y), rot_quat(lx, x)) for x, y in zip(c['xs'], c['ys'])]
+        n = len(ref)
+        exp = {'none': ref, 'mean': [math.fsum(ref) / n], 'sum': [math.fsum(ref)]}
+        crit = {red: pp.module.GeodesicLoss(reduction=red) for red in exp}
+        forms = [('geodesic_loss(x, y, %r)', lambda A, B, red: pp.geodesic_loss(A, B, red)),
+                 ('GeodesicLoss(reduction=%r)(x, y)', lambda A, B, red: crit[red](A, B))]
+        plain = {}
+        for g in [('plain', 'plain', 'default')] + GRAD_MODES:
+            X, Y = grad_prep(pp, torch, X0, g[0]), grad_prep(pp, torch, Y0, g[1])
+            desc = '%s with x of type %s, y of type %s (%s)' % ('%s', lx, ly, grad_desc(g))
+            with grad_ctx(torch, g[2]):
+                for red in ('none', 'mean', 'sum'):
+                    k = n if red == 'sum' else 1
+                    for fname, f in forms:
+                        a, b = flat_vals(pp, f(X, Y, red)), flat_vals(pp, f(Y, X, red))
+                        who = desc % (fname % red)
+                        if len(a) != len(exp[red]) or len(b) != len(a):
+                            return '%s returned %d values, expected %d' % (who, len(a), len(exp[red]))
+                        for j, (u, v, w) in enumerate(zip(a, b, exp[red])):
+                            if not (u == u and -1e-300 <= u <= math.pi * k * (1 + 1e-12)):
+                                return '%s: entry %d = %r is outside [0, %s]' % (who, j, u, '%d pi' % k if k > 1 else 'pi')
+                            if not abs(u - w) <= 1e-9 * w + 1e-12 * k:
+                                return ('%s: entry %d = %r is not the rotation angle between the rotation parts, %r (all angles: %s)'
+                                        % (who, j, u, w, ['%.6g' % t for t in ref]))
+                            if not abs(u - v) <= 1e-9 * w + 1e-12 * k:
+                                return '%s is not symmetric: entry %d = %r, with the arguments swapped %r' % (who, j, u, v)
+                        if g[:3] == ('plain', 'plain', 'default') and (red, fname) not in plain:
+                            plain[(red, fname)] = a
+                        elif not same_vals(a, plain[(red, fname)]):
+                            return '%s = %s depends on the autograd state: for plain tensors it is %s' % (who, a[:6], plain[(red, fname)][:6])
+    except Exception as e:
+        return 'geodesic_loss with x of type %s, y of type %s raised %r in one of the autograd states' % (lx, ly, e)
+    return None
+
+
+# ------------------------------------------------------------------------------------- boundary pose errors
+HALF_TURNS = [[1.0, 0.0, 0.0, 0.0], [0.0, 1.0, 0.0, 0.0], [0.0, 0.0, 1.0, 0.0], [0.36, -0.48, 0.8, 0.0],
+              [0.6, 0.8, 0.0, 0.0], [0.0, -0.6, 0.8, 0.0], [-1.0, 0.0, 0.0, 0.0]]
+BOUNDARY_SCEN = ['half-x', 'half-y', 'half-z', 'half-generic-axis', 'alternate', 'half-random-axes', 'mixed', 'identity',
+                 'near-pi', 'tiny']
+BOUNDARY_REF = ['generic', 'exact', 'translation-only', 'special']
+
+
+def boundary_rot(rng, kind):
+    if kind == 'identity':
+        return [0.0, 0.0, 0.0, rng.choice([1.0, 1.0, -1.0])]
+    if kind == 'half':
+        return list(rng.choice(HALF_TURNS))
+    if kind == 'half-any':
+        return small_q(rng, math.pi)
+    if kind == 'near-pi':
+        return small_q(rng, math.pi - rng.choice([1e-9, 1e-6, 1e-3]))
+    if kind == 'tiny':
+        return small_q(rng, rng.choice([1e-9, 1e-6, 1e-4]))
+    return small_q(rng, rng.uniform(0.05, 3.0))
+
+
+def gen_boundary_metric(rng, bi):
+    """reference trajectory and an estimate est_i = ref_i (dt_i, d_i) whose rotation errors d_i are boundary rotations:
+    exact half turns about the coordinate axes / a generic axis (constant, alternating with the identity - so that
+    every RELATIVE motion is off by exactly a half turn -, about random axes), the identity, angles next to pi,
+    tiny angles, and mixtures with generic ones"""
+    scen = BOUNDARY_SCEN[bi % len(BOUNDARY_SCEN)]
+    refk = BOUNDARY_REF[(bi // len(BOUNDARY_SCEN) + bi) % len(BOUNDARY_REF)]
+    n = [3, 4, 7, 12][bi % 4] if bi < 40 else rng.randint(3, 60)
+    if refk == 'exact':
+        ref = gen_traj(rng, n, 'exact')
+    else:
+        ref = gen_traj(rng, n, 'generic')
+        if refk == 'translation-only':
+            ref = [p[:3] + [0.0, 0.0, 0.0, 1.0] for p in ref]
+        elif refk == 'special':
+            ref = [p[:3] + boundary_rot(rng, rng.choice(['identity', 'half', 'half-any', 'generic'])) for p in ref]
+    ds = []
+    for i in range(n):
+        if scen.startswith('half-') and scen != 'half-random-axes':
+            d = list(HALF_TURNS[['half-x', 'half-y', 'half-z', 'half-generic-axis'].index(scen)])
+        elif scen == 'alternate':
+            d = list(HALF_TURNS[bi % 3]) if i % 2 else [0.0, 0.0, 0.0, 1.0]
+        elif scen == 'half-random-axes':
+            d = boundary_rot(rng, 'half-any')
+        elif scen == 'mixed':
+            d = boundary_rot(rng, rng.choice(['identity', 'half', 'half-any', 'near-pi', 'tiny', 'generic', 'generic']))
+        else:
+            d = boundary_rot(rng, scen)
+        ds.append(d)
+    moved = bi % 3 != 0
+    est = []
+    for p, d in zip(ref, ds):
+        dt = q_rot(p[3:], [dy(rng, 4, 0.5) for _ in range(3)]) if moved else [0.0, 0.0, 0.0]
+        est.append([p[j] + dt[j] for j in range(3)] + q_mul(p[3:], d))
+    stamps = [1311868163.0 + 0.05 * i for i in range(n)] if bi % 2 else [0.1 * i for i in range(n)]
+    small = scen in ('identity', 'tiny')
+    return scen, refk, small, dict(rstamp=stamps, rpose=ref, estamp=list(stamps), epose=est, diff=0.01, offset=0.0,
+                                   align=False, scale=False, origin=False)
+
+
+# ------------------------------------------------------------------------------------- splines, autograd states
+def spline_grad_laws(pp, torch, c):
+    """chspline / bspline values do not depend on the autograd state of the points / poses or the grad mode"""
+    q = c['a'] / c['b']
+    try:
+        if c['fn'] == 'chspline':
+            P0 = torch.tensor(c['data'], dtype=torch.float64)
+            f = lambda P: pp.chspline(P, q)
+        else:
+            P0 = pp.SE3(torch.tensor(c['data'], dtype=torch.float64))
+            f = lambda P: pp.bspline(P, q, c['extrapolate'])
+        plain = f(P0)
+        for g in GRAD_MODES:
+            if g[0] == 'plain' and g[2] == 'default':
+                continue
+            with grad_ctx(torch, g[2]):
+                o = f(grad_prep(pp, torch, P0, g[0]))
+            if tuple(o.shape) != tuple(plain.shape) or not same_vals(flat_vals(pp, o), flat_vals(pp, plain)):
+                dev = (torch.as_tensor(flat_vals(pp, o)) - torch.as_tensor(flat_vals(pp, plain))).abs().max().item() if o.shape == plain.shape else float('nan')
+                return ('%s(interval %s%s) of an argument that is %s (grad mode %s) differs from the result for a plain tensor '
+                        '(shape %s vs %s, max deviation %g)' % (c['fn'], q, ', extrapolate=%s' % c['extrapolate'] if c['fn'] == 'bspline' else '',
+                                                                GRAD_WORDS[g[0]], g[2], tuple(o.shape), tuple(plain.shape), dev))
+    except Exception as e:
+        return '%s raised %r in one of the autograd states' % (c['fn'], e)
+    return None
 
 
 # ------------------------------------------------------------------------------------- run
@@ -1138,8 +1405,76 @@ def run(ctx):
         if why:
             viol(geo_key(why), why, c)
 
+    tE = time.time() - ctx.t0
+    # ================================================================ E: autograd states and boundary rotations
+    # geodesic_loss: arguments requiring grad / Parameters / grad modes, angles from exactly zero over 1e-9 .. 1e-2 to pi
+    for gi in range(ctx.scale(16, 120)):
+        c = gen_geo_grad(rng, torch, gi)
+        ctx.case(('geo-grad', gi, c['lx'], c['ly'], repr(c['xs'][:1])), nontrivial=True, branch='geodesic-grad:%s:%s' % (c['lx'], 'same-type' if c['lx'] == c['ly'] else 'mixed-types'),
+                 sample=dict(call='geodesic_loss', input=c['lx'], target=c['ly'], states=len(GRAD_MODES)) if gi % 9 == 2 else None)
+        why = geo_grad_laws(pp, torch, c)
+        if why:
+            viol(geo_key(why), why, c)
+    # ape / rpe: pose errors that are boundary rotations (exact half turns, identity, next to pi, tiny), every error type,
+    # pairing options; order chain with NaN counted as a violation, radian / degree against the angle oracle, rpe invariance
+    for bi in range(ctx.scale(20, 160)):
+        scen, refk, small, base = gen_boundary_metric(rng, bi)
+        G = rand_pose(rng, 4.0)
+        for et in ['translation', 'rotation', 'pose', 'radian', 'degree']:
+            ap = dict(base, etype=et, rpe=False)
+            rps = [dict(base, etype=et, rpe=True, associate='frame', delta=float(dl), all=al, rpair=rpr, rtol=0.1)
+                   for (dl, al, rpr) in ((1, False, False), (1, True, bi % 2 == 0), (2, bi % 2 == 1, True))
+                   if dl < len(base['rpose'])]
+            rd = dict(base, etype=et, rpe=True, associate='distance', delta=round(rng.uniform(0.3, 1.5), 3), all=bi % 2 == 0,
+                      rpair=bi % 3 == 0, rtol=0.1)
+            jobs = [(ap, 'order', None), (dict(ap, origin=True), 'order', None), (rd, 'order', None)]
+            jobs += [(rp, 'order', None) for rp in rps]
+            if et in ('radian', 'degree'):
+                ex = dict(abs_tol=1e-10) if small else None
+                jobs += [(ap, 'angle-oracle', ex)] + [(rp, 'angle-oracle', ex) for rp in rps]
+            jobs += [(rps[bi % len(rps)], 'left-r', dict(G=G)), (rps[(bi + 1) % len(rps)], 'left-e', dict(G=G))]
+            if bi % 5 == 0:
+                jobs += [(ap, 'grad-state', None), (rps[0], 'grad-state', None)]
+            for (c, which, extra) in jobs:
+                ctx.case(('mbound', bi, et, which, c['rpe'], c.get('delta'), c.get('all'), c['origin']), nontrivial=True,
+                         branch='metric-boundary:%s:%s:%s' % (scen, which, et),
+                         sample=dict(call='rpe' if c['rpe'] else 'ape', scenario=scen, reference=refk, etype=et, law=which, poses=len(c['rpose'])) if (bi * 5 + len(et)) % 31 == 7 and which == 'order' else None)
+                why = metric_laws(pp, torch, c, which, extra)
+                if why:
+                    viol('%s:%s:%s' % ('rpe' if c['rpe'] else 'ape', which, et), 'pose errors of kind %r (reference %s): %s' % (scen, refk, why),
+                         dict(kind='metric-law', which=which, case=c, extra=extra))
+    ctx.traces += ctx.scale(20, 160)
+    # ape / rpe on generic trajectories (small rotation errors) in every autograd state
+    for li in range(ctx.scale(3, 20)):
+        n = rng.randint(3, 40)
+        ref = gen_traj(rng, n, 'generic')
+        est = perturb(rng, ref, sigma_r=rng.choice([1e-6, 1e-3, 0.05]))
+        rst = [0.05 * i for i in range(n)]
+        for et in ['translation', 'rotation', 'pose', 'radian', 'degree']:
+            base = dict(rstamp=rst, rpose=ref, estamp=rst, epose=est, diff=0.01, offset=0.0, etype=et, align=li % 3 == 1, scale=False, origin=li % 3 == 2)
+            for c in (dict(base, rpe=False), dict(base, rpe=True, associate='frame', delta=1.0, all=li % 2 == 0, rpair=False, rtol=0.1, align=False)):
+                ctx.case(('mgrad', li, et, c['rpe']), nontrivial=True, branch='metric-grad:%s:%s' % ('rpe' if c['rpe'] else 'ape', et))
+                why = metric_laws(pp, torch, c, 'grad-state')
+                if why:
+                    viol('%s:grad-state:%s' % ('rpe' if c['rpe'] else 'ape', et), why, dict(kind='metric-law', which='grad-state', case=c, extra=None))
+    # splines in every autograd state
+    for si in range(ctx.scale(6, 40)):
+        a, b = rng.choice(INTERVALS)
+        if si % 2 == 0:
+            sh = rng.choice([(), (2,), (2, 2)])
+            pts, _ = gen_points(rng, torch, rng.randint(2, 12), sh, rng.randint(1, 4), si % 4 == 0)
+            c = dict(kind='spline-grad', fn='chspline', data=pts.tolist(), a=a, b=b, extrapolate=False)
+        else:
+            N = rng.randint(4, 10)
+            c = dict(kind='spline-grad', fn='bspline', data=[[rand_pose(rng) for _ in range(N)] for _ in range(rng.randint(1, 2))], a=a, b=b,
+                     extrapolate=si % 4 == 1)
+        ctx.case(('spline-grad', si, c['fn'], a, b, c['extrapolate'], repr(c['data'])[:40]), nontrivial=True, branch='spline-grad:' + c['fn'])
+        why = spline_grad_laws(pp, torch, c)
+        if why:
+            viol('%s:autograd-state' % c['fn'], why, c)
+
     # ================================================================ run Coq
-    ctx.notes.append('python part (proof build, implementation calls, law checks), cumulative seconds after chspline / bspline / metric ties / metric laws / geodesic: %.0f %.0f %.0f %.0f %.0f' % (tA, tB, tC, tD, time.time() - ctx.t0))
+    ctx.notes.append('python part (proof build, implementation calls, law checks), cumulative seconds after chspline / bspline / metric ties / metric laws / geodesic / autograd states and boundary rotations: %.0f %.0f %.0f %.0f %.0f %.0f' % (tA, tB, tC, tD, tE, time.time() - ctx.t0))
     from concurrent.futures import ThreadPoolExecutor as _TPE
     _ex = _TPE(max_workers=1)
     _fut = _ex.submit(run_enclosure, 'C19', 'Model.LieGroup Model.LieExp Model.LieLog Model.Spline Model.Metric', gcases,
@@ -1301,6 +1636,10 @@ def replay(ctx, c):
         return pf_oracle(pp, torch, c['n'], c['delta'], c['all'])
     if k == 'geodesic-shape':
         return geo_shape_laws(pp, torch, c)
+    if k == 'geodesic-grad':
+        return geo_grad_laws(pp, torch, c)
+    if k == 'spline-grad':
+        return spline_grad_laws(pp, torch, c)
     if k in ('geodesic-law', 'geodesic'):
         return geo_laws(pp, torch, c['ltype'], c['xs'], c['ys'])
     return None
